@@ -1706,6 +1706,7 @@ error:
 		free(opttitle);
 	if (comment)
 		free(comment);
+	cfg_free_value(&funcopt); /* arguments of an unfinished function call */
 
 	return STATE_ERROR;
 }
